@@ -391,7 +391,7 @@ Proof.
   - unfold run_tx. destruct (validate_basic m) eqn:Hv; [|discriminate].
     destruct (handle _ m) as [x| |] eqn:H; try discriminate. intros [= <-].
     eapply idx_plan_handle; [apply kinv_clear; exact Hi|apply idx_plan_clear; exact Hp|exact Hv|exact H].
-  - intros [= <-]. apply (fold_left_inv idx_plan).
+  - destruct (forallb pchange_valid _); [|discriminate]. intros [= <-]. apply (fold_left_inv idx_plan).
     + intros y c Hy. eapply idx_plan_keeps; [apply apply_pchange_keeps|reflexivity..|exact Hy].
     + apply idx_plan_clear. exact Hp.
   - destruct (end_block _) as [se| |] eqn:H; try discriminate. intros [= <-].
